@@ -270,6 +270,21 @@ fn invocation_forms(rep: &mut Report, root: &std::path::Path) {
     }
     let mut world = World::simple(btc, &chain.blocks, 0);
     world.xor_key = Some(vec![0x5a, 0x11, 0xc3, 0x07, 0x99, 0xe0, 0x3c, 0x42]);
+    {
+        // what the index of a node looks like that was stopped while catching up: two blocks above the validated tip that are
+        // stored but not yet connected (VALID_TRANSACTIONS | HAVE_DATA), a header beyond them, and a once-active block next to
+        // the block below the tip. Whatever rule picks the tip among them, it must pick the same one under every hash seed.
+        use refmodel::world::{ACTIVE, HAVE_DATA, VALID_TRANSACTIONS};
+        let tip_h = chain.blocks.len() as u64 - 1;
+        let mut parent = chain.blocks.last().unwrap().hash();
+        for k in 1..=2u64 {
+            let b = refmodel::ser::Block::build(1, parent, 1_700_000_000 + k as u32, 0x1d00ffff, k as u32, vec![coinbase(tip_h + k, 0xcafe, vec![pay(240 + k as u8, 9)])]);
+            parent = b.hash();
+            world.add_block_status(9, tip_h + k, &b, VALID_TRANSACTIONS | HAVE_DATA);
+        }
+        let stale = refmodel::ser::Block::build(1, chain.blocks[chain.blocks.len() - 3].hash(), 1_600_000_777, 0x1d00ffff, 99, vec![coinbase(tip_h - 1, 0xdead, vec![pay(239, 9)])]);
+        world.add_block_status(9, tip_h - 1, &stale, ACTIVE);
+    }
     let mut cases = Vec::new();
     for cbn in ["csvdump", "unspentcsvdump", "balances", "simplestats", "opreturn"] {
         for range in [(None, None), (Some(1u64), Some(2u64))] {
